@@ -43,6 +43,15 @@ Proof.
 Qed.
 Print Assumptions device_only_after_approval.
 
+(* the approval a device token rests on was given for a device code that had been announced: a decision naming a
+   device that does not exist (yet) is not kept, so it cannot approve a device code issued later *)
+Theorem decisions_name_announced_devices :
+  forall registry sha256 pkce_required ops d v,
+  In (d, v) (s_decisions (run registry sha256 pkce_required ops)) ->
+  exists dv, In dv (s_devices (run registry sha256 pkce_required ops)) /\ dv_id dv = d.
+Proof. intros registry sha256 pk ops d v H. exact (DecInv_run registry sha256 pk ops d v H). Qed.
+Print Assumptions decisions_name_announced_devices.
+
 (* when a challenge was recorded, or the client is public and PKCE is required, or a verifier
    was presented: it is well formed (RFC 7636 s4.1) and its transform equals the challenge *)
 Theorem pkce_transform_checked :
